@@ -259,9 +259,11 @@ def table_items(ctx, out, rnd):
         ents = sorted((sl[1], sl[2], sl[0], v["t"], v["v"]) for sl, v in o.items())
         stores.append(ents)
     stores.sort()
-    if not ctx.quick and len(stores) > 20000:
+    if len(stores) > 100000:
         stores = [s for i, s in enumerate(stores) if i % 3 == ctx.seed % 3]
-        out.note("thorough: 1/3 sample of the wide table executed on the implementation")
+        out.note("1/3 sample of the table executed on the implementation")
+    else:
+        out.exhaustive = True
     items = []
     junk = [_val("str", "junk"), _val("NoneType", "None"), _val("int", "0")]
     for i, ents in enumerate(stores):
@@ -489,7 +491,6 @@ def run(ctx, out):
                 opcount[key] = opcount.get(key, 0) + 1
         out.note("%s: %d items executed on esrally.config (%.1fs)" % (label, len(items), time.time() - t0))
     shutil.rmtree(runner.home, ignore_errors=True)
-    out.exhaustive = bool(ctx.quick)
     out.extra["calls_executed"] = opcount
     out.note("calls executed (op[:exception]): %s" % ", ".join("%s=%d" % kv for kv in sorted(opcount.items())))
     rare = [need for need in ("add", "addall", "setfile", "store", "load", "autoload", "delfile") if opcount.get(need, 0) < 20]
